@@ -219,5 +219,21 @@ k("K100", "C07", "segment/decode.go", "\tencodedPayload := make([]byte, length)\
 k("K101", "C07", "segment/decode.go", "\tactualPayloadCrc := crc.ChecksumIEEE(encodedPayload)", "\tactualPayloadCrc := crc.ChecksumIEEE(encodedPayload[:len(encodedPayload)/2])",
   "crc32:input", "CRC-32 over half the payload")
 
+# ---- C18
+k2("K48", "C18", [("frame/codec.go", "type codec struct {\n", "type codec struct {\n\tscratch []byte\n"),
+  ("frame/encode.go", "func (c *codec) EncodeBody(header *Header, body *Body, dest io.Writer) error {\n", "func (c *codec) EncodeBody(header *Header, body *Body, dest io.Writer) error {\n\tc.scratch = c.scratch[:0]\n")],
+  "write-free:(*frame.codec).EncodeBody", "scratch buffer cached in a codec field")
+k2("K49", "C18", [("compression/lz4/lz4.go", "type Compressor struct{}\n", "type Compressor struct{}\n\nvar scratch []byte\n"),
+  ("compression/lz4/lz4.go", "\t\tcompressedMessage := make([]byte, maxCompressedSize)\n", "\t\tif cap(scratch) < maxCompressedSize {\n\t\t\tscratch = make([]byte, maxCompressedSize)\n\t\t}\n\t\tcompressedMessage := scratch[:maxCompressedSize]\n")],
+  "write-free:(compression/lz4.Compressor).Compress", "package-level scratch buffer reused")
+k2("K102", "C18", [("datacodec/varint.go", "func readBigInt(source []byte) (val *big.Int) {", "var scratchModulus = new(big.Int)\n\nfunc readBigInt(source []byte) (val *big.Int) {"),
+  ("datacodec/varint.go", "\t\t\tval.Sub(val, new(big.Int).Lsh(oneBigInt, uint(length)*8))", "\t\t\tval.Sub(val, scratchModulus.Lsh(oneBigInt, uint(length)*8))")],
+  "write-free:datacodec.readBigInt", "shared scratch big.Int (seeded C18-B)")
+k("K103", "C18", "datacodec/collection.go", "\text, size, err := c.createExtractor(source)\n", "\text, size, err := c.createExtractor(source)\n\tif c.elementCodec == nil {\n\t\tc.elementCodec = Blob // lazily default the element codec\n\t}\n",
+  "write-free:(*datacodec.collectionCodec).Encode", "lazy initialisation of a field of a shared CQL codec")
+k2("K104", "C18", [("frame/encode.go", "func (c *codec) EncodeBody(header *Header, body *Body, dest io.Writer) error {\n", "var bodyPool = sync.Pool{New: func() interface{} { return new(bytes.Buffer) }}\n\nfunc (c *codec) EncodeBody(header *Header, body *Body, dest io.Writer) error {\n\tpooled := bodyPool.Get().(*bytes.Buffer)\n\tdefer bodyPool.Put(pooled)\n\tif header == nil {\n\t\tbodyPool.Put(pooled)\n\t\treturn errors.New(\"nil header\")\n\t}\n"),
+  ("frame/encode.go", "import (\n\t\"bytes\"\n", "import (\n\t\"bytes\"\n\t\"sync\"\n")],
+  "pool:(*frame.codec).EncodeBody", "pooled buffer released twice on an error path (seeded C18-A)")
+
 json.dump(C, open(os.path.join(os.path.dirname(os.path.abspath(__file__)), "controls.json"), "w"), indent=1)
 print(len(C), "controls")
